@@ -139,6 +139,20 @@ def leanchecker(modules):
     return p.returncode == 0, (p.stdout + p.stderr)[-2000:]
 
 
+def claim_tool(tid, name):
+    """sys.monitoring has six tool ids and the tie libraries of one check run one after the other in one process (and again after an
+    escalation): take the id for `name`, evicting a previous user (its callbacks and events go with free_tool_id).  Returns False when
+    the id is already held under this name (the caller's registrations are still in place)."""
+    mon = sys.monitoring
+    cur = mon.get_tool(tid)
+    if cur == name:
+        return False
+    if cur is not None:
+        mon.free_tool_id(tid)
+    mon.use_tool_id(tid, name)
+    return True
+
+
 class Driver:
     """verifdrv <model>: one request line in, one answer line out (batch)."""
 
